@@ -54,10 +54,12 @@ META = {
         "InitVar tags) and rewrite sequences longer than 3 are not explored",
     ],
     "bound": {
-        "quick": "grammar depth <= 2 (restricted core at depth 2), BFS depth 3, edits on members at rewrite distance <= 1, "
-                 "behaviour/predicate leg on <= 6 members per class",
-        "thorough": "grammar depth <= 3 (unary/binary constructors over the depth-2 core), BFS depth 3, edits on every "
-                    "member, behaviour/predicate leg on <= 40 members per class",
+        "quick": "grammar: all depth-0 and depth-1 hints, depth 2 = 9 constructors over 34 depth-1 hints + pairs; BFS over "
+                 "rewrite sequences of length <= 3 from every base hint; edits on members at rewrite distance <= 1; nested "
+                 "idempotence at distance <= 2; behaviour/predicate leg on <= 6 members per class (even spread over BFS order)",
+        "thorough": "grammar: depth <= 2 over the wider core (about 3000 hints) + depth 3 = 4 constructors over the quick "
+                    "depth-2 hints; BFS <= 3; edits at distance <= 2; nested idempotence everywhere; behaviour/predicate leg on "
+                    "<= 24 members per class",
     },
 }
 
